@@ -478,6 +478,8 @@ class Machine:
         m = re.match(r'const (.*)$', s)
         if m:
             return self.const_value(m.group(1))
+        if re.match(r'^[<\w]', s) and '::' in s and not s.startswith(('copy', 'move', 'const')):
+            return ('fnitem', s)             # a function item used as a value (e.g. `.map_err(CIError::from)`)
         raise Stuck('operand? ' + s)
 
     # ---- run
